@@ -35,6 +35,11 @@ UNIT = {
     "cubic": '<path d="M-.5,.3 C-.4,-1.1 .4,-1.1 .5,.3 C.2,.6 -.2,.6 -.5,.3 Z" fill="orange"/>',
     "group": '<g opacity=".5"><rect x="-.5" y="-.5" width=".7" height=".7" fill="teal"/><circle cx=".15" cy=".15" r=".35" fill="maroon"/></g>',
     "grad": '<rect x="-.5" y="-.35" width="1" height=".7" fill="url(#lg)"/>',
+    # shapes whose BOX can overlap the viewBox while their geometry misses it: a frame around everything (at the centre),
+    # an L hugging a corner from outside (at 1,1), a diagonal band past a corner (at 0,0)
+    "frame": '<path fill-rule="evenodd" d="M-2.5,-2.5 H2.5 V2.5 H-2.5 Z M-1.6,-1.6 H1.6 V1.6 H-1.6 Z" fill="brown"/>',
+    "cornerL": '<path d="M.05,-1 H.5 V.5 H-1 V.05 H.05 Z" fill="navy"/>',
+    "diag": '<path d="M-.8,.6 L.6,-.8 L.5,-.9 L-.9,.5 Z" fill="olive"/>',
 }
 GRAD_DEF = (
     '<linearGradient id="lg" x1="0" y1="0" x2="1" y2="1"><stop offset="0" stop-color="red"/><stop offset="1" stop-color="blue"/></linearGradient>'
@@ -336,6 +341,11 @@ def all_clip_cases(tier, seed):
                 yield {"fam": "clip", "vb": list(vb), "items": [[s, gx, gy]], "tier": tier, "seed": seed}
         for s in ("rect", "ring", "group"):
             yield {"fam": "clip", "vb": list(vb), "items": [[s, 0.5, 0.5]], "covering": True, "tier": tier, "seed": seed}
+    # geometry that misses the viewBox although its box overlaps it, alone and between two shapes that stay
+    for vb in VIEWBOXES:
+        for s, gx, gy in (("frame", 0.5, 0.5), ("cornerL", 1.0, 1.0), ("diag", 0.0, 0.0)):
+            yield {"fam": "clip", "vb": list(vb), "items": [["rect", 0.3, 0.3], [s, gx, gy], ["circle", 0.6, 0.6]], "via": "inplace", "tier": tier, "seed": seed}
+            yield {"fam": "clip", "vb": list(vb), "items": [[s, gx, gy], ["tri", 0.5, 0.5]], "group": True, "tier": tier, "seed": seed}
     # two shapes: all position pairs for (rect, circle) on the first viewBox, in-place mode
     vb = VIEWBOXES[0]
     for (p1, p2) in itertools.product(pos, repeat=2):
@@ -369,6 +379,8 @@ def corpus_for_c07(tier, seed):
 def cases(tier, seed):
     yield from all_clip_cases(tier, seed)
     pos = [(0.0, 0.5), (0.5, 0.5), (1.0, 1.0), (1.42, 0.5)]
+    for k, (s, gx, gy) in enumerate((("frame", 0.5, 0.5), ("cornerL", 1.0, 1.0), ("diag", 0.0, 0.0))):
+        yield {"fam": "cli", "vb": list(VIEWBOXES[k % 4]), "items": [[s, gx, gy], ["rect", 0.5, 0.5]]}
     for k, s in enumerate(list(UNIT)[:5] + list(DIRECT)):
         for p in pos:
             yield {"fam": "cli", "vb": list(VIEWBOXES[k % 4]), "items": [[s, *p]]}
@@ -386,7 +398,7 @@ def cases(tier, seed):
 
 def run(run):
     run.rule = (
-        "E2 + R3: pico documents obtained by converting sources built from 7 shapes (rect, triangle, circle, evenodd ring, cubic with extrema between control points, translucent two-shape group, "
+        "E2 + R3: pico documents obtained by converting sources built from 10 shapes (rect, triangle, circle, evenodd ring, cubic with extrema between control points, translucent two-shape group, frame around the whole viewBox, L hugging a corner from outside, diagonal band past a corner, "
         "gradient-filled rect; and, written in absolute coordinates so that the gradient stays in bounding-box units and shared: rect / ellipse with linear / radial bounding-box gradients, rect with a user-space gradient, singly and in pairs sharing the gradient) placed at each of 25 grid positions relative to the viewBox (inside, outside x8, straddling each side and corner) + covering shapes, 3 viewBoxes (incl. negative and "
         "fractional origin/size), single shapes, all/half of the position pairs of two shapes (in-place mode), kept group around two shapes, triples (thorough); CLI flag on 20 documents. Oracle: "
         "clipped document == original under a clip to the viewBox rectangle (paint stacks and composites at all lattice/probe points outside the band), R4 grammar. Bounding boxes: exact-extrema "
